@@ -69,7 +69,18 @@ vec_data!(u64, cast_ref_u64, U64, NullableU64);
 vec_data!(i64, cast_ref_i64, I64, NullableI64);
 vec_data!(of64, cast_ref_f64, F64, NullableF64);
 vec_data!(&'a str, cast_ref_str, Str, NullableStr);
-pub enum DataSection { Bitvec(Vec<u8>) }
+pub enum DataSection { Bitvec(Vec<u8>), I64(Vec<i64>), F64(Vec<of64>) }
+impl From<Vec<i64>> for DataSection { fn from(v: Vec<i64>) -> Self { DataSection::I64(v) } }
+impl From<Vec<of64>> for DataSection { fn from(v: Vec<of64>) -> Self { DataSection::F64(v) } }
+impl DataSection {
+    pub fn as_data(&self) -> &dyn Data<'_> { match self { DataSection::Bitvec(v) => v, DataSection::I64(v) => v, DataSection::F64(v) => v } }
+}
+// R10: a column is its op list and its data sections
+pub struct Column { pub codec: Vec<CodecOp>, pub data: Vec<DataSection> }
+impl Column { pub fn new(_name: &str, _len: usize, _range: Option<(i64, i64)>, codec: Vec<CodecOp>, data: Vec<DataSection>) -> Column { Column { codec, data } } }
+#[path = "@REPO@/src/bitvec.rs"]
+pub mod bitvec;
+use bitvec::BitVec;
 pub struct Codec { pub ops: Vec<CodecOp> }
 impl Codec { pub fn ops(&self) -> &[CodecOp] { &self.ops } }
 // LZ4 is the repository's own module over the lz4_flex crate (#[path] include); pco is a stand-in that must not be reached
@@ -92,7 +103,7 @@ fn check_dict(nullable: bool, idx: [u8; N], present_byte: u8) -> Option<String> 
     let mut codec = dict_codec(EncodingType::U8);
     let mut extra: Vec<DataSection> = Vec::new();
     attach_present(&mut codec, &mut extra, if nullable { Some(vec![present_byte]) } else { None });
-    let bitmap: Vec<u8> = match extra.pop() { Some(DataSection::Bitvec(p)) => p, None => vec![] };
+    let bitmap: Vec<u8> = match extra.pop() { Some(DataSection::Bitvec(p)) => p, _ => vec![] };
     let describe = |what: &str, i: usize| Some(format!("{}: dictionary string column, indices {:?} into [\"\", \"a\", \"bc\"], presence byte {}, row {}; codec {:?}", what, idx, if nullable { format!("{:#010b}", present_byte) } else { "none".to_string() }, i, codec));
     if nullable != (bitmap.len() == 1) { return describe("presence-section: a column with NULLs carries its presence bitmap as one more section", 0); }
     let sections: Vec<&dyn Data> = vec![&indices, &ranges, &dict, &bitmap];
@@ -184,6 +195,45 @@ fn check_packed_strings(compressed: bool, words: [&str; N]) -> Option<String> {
     }
 }
 
+// integers that need 64 bits, and floats: the columns are built by the real constructors' match expressions
+fn check_wide_ints(nullable: bool, delta: bool, stored: [i64; N], present_byte: u8) -> Option<String> {
+    let col = wide_int_column("c", stored.to_vec(), if nullable { Some(vec![present_byte]) } else { None }, delta, None);
+    let describe = |what: &str, i: usize| Some(format!("{}: 64-bit integer column stored as {:?}, delta {}, presence byte {}, row {}; codec {:?}", what, stored, delta, if nullable { format!("{:#010b}", present_byte) } else { "none".to_string() }, i, col.codec));
+    let sections: Vec<&dyn Data> = col.data.iter().map(|d| d.as_data()).collect();
+    let out = decode(&Codec { ops: col.codec.clone() }, &sections[..]);
+    if out.len() != N { return describe("same-length: decoding keeps the number of rows", 0); }
+    let ints = out.cast_ref_i64();
+    let mut sum: i64 = 0;
+    for i in 0..N {
+        sum = sum.wrapping_add(stored[i]);
+        let want = if delta { sum } else { stored[i] };
+        if nullable && !bit(&[present_byte], i) {
+            if !(out.get_type().is_nullable() && !bit(out.cast_ref_null_map(), i)) { return describe("null-stays-null: a row stored as NULL is decoded as a value", i); }
+        } else {
+            if out.get_type().is_nullable() && !bit(out.cast_ref_null_map(), i) { return describe("value-stays-present: a row stored with a value is decoded as NULL", i); }
+            if ints[i] != want { return describe("stored-value: a present row does not decode to the stored value (running sum when delta-encoded)", i); }
+        }
+    }
+    None
+}
+fn check_floats(nullable: bool, stored: [f64; N], present_byte: u8) -> Option<String> {
+    let col = float_column("c", stored.iter().map(|f| OrderedFloat(*f)).collect(), if nullable { Some(vec![present_byte]) } else { None });
+    let describe = |what: &str, i: usize| Some(format!("{}: float column {:?}, presence byte {}, row {}; codec {:?}", what, stored, if nullable { format!("{:#010b}", present_byte) } else { "none".to_string() }, i, col.codec));
+    let sections: Vec<&dyn Data> = col.data.iter().map(|d| d.as_data()).collect();
+    let out = decode(&Codec { ops: col.codec.clone() }, &sections[..]);
+    if out.len() != N { return describe("same-length: decoding keeps the number of rows", 0); }
+    let floats = out.cast_ref_f64();
+    for i in 0..N {
+        if nullable && !bit(&[present_byte], i) {
+            if !(out.get_type().is_nullable() && !bit(out.cast_ref_null_map(), i)) { return describe("null-stays-null: a row stored as NULL is decoded as a value", i); }
+        } else {
+            if out.get_type().is_nullable() && !bit(out.cast_ref_null_map(), i) { return describe("value-stays-present: a row stored with a value is decoded as NULL", i); }
+            if floats[i].0.to_bits() != stored[i].to_bits() { return describe("float-bits-kept: a present row does not decode to the stored float bit for bit", i); }
+        }
+    }
+    None
+}
+
 pub fn search(_seed: u64) -> Option<String> {
     for nullable in [false, true] {
         for present_byte in 0u8..8 {
@@ -197,6 +247,18 @@ pub fn search(_seed: u64) -> Option<String> {
                     if let Some(w) = check_ints(nullable, offset, delta, [a, b, c], present_byte) { return Some(w); }
                 } } }
             } }
+            let pool64 = [0i64, -1, i64::MAX / 2, i64::MIN / 2 + 7];
+            for delta in [false, true] {
+                for &a in &pool64 { for &b in &pool64 { for &c in &pool64 {
+                    // stored differences come from real column values: their running sums fit i64 (U04v delta round trip)
+                    if delta && a.checked_add(b).and_then(|s| s.checked_add(c)).is_none() { continue; }
+                    if let Some(w) = check_wide_ints(nullable, delta, [a, b, c], present_byte) { return Some(w); }
+                } } }
+            }
+            let poolf = [0.0f64, -0.0, 1.5, f64::NAN, f64::NEG_INFINITY];
+            for &a in &poolf { for &b in &poolf { for &c in &poolf {
+                if let Some(w) = check_floats(nullable, [a, b, c], present_byte) { return Some(w); }
+            } } }
             let pool16 = [0u16, 1, 300, 65535];
             for offset in [0i64, -3, 1000] {
                 for &a in &pool16 { for &b in &pool16 { for &c in &pool16 {
